@@ -45,7 +45,8 @@ TPairPos ==
          classes == [i \in DOMAIN Ev.classes |-> [c1 |-> AsSet(Ev.classes[i].c1), c2 |-> AsSet(Ev.classes[i].c2), v1 |-> V(Ev.classes[i].v1), v2 |-> V(Ev.classes[i].v2)]]
      IN \A i \in DOMAIN Ev.probes :
           LET p == Ev.probes[i] IN
-          /\ Lookup(sts, p.g1, p.g2) = Expected(pairs, classes, p.g1, p.g2)       \* the compiled lookup means the rules
+          /\ Decided(pairs, classes, p.g1, p.g2) =>
+                Lookup(sts, p.g1, p.g2) = Expected(pairs, classes, p.g1, p.g2)    \* the compiled lookup means the rules
           /\ <<V(p.walker[1]), V(p.walker[2])>> = Lookup(sts, p.g1, p.g2)          \* the harness walker agrees with the spec
 
 \* lookups too large to ship: judged by the harness walker (validated above) against the input rules
